@@ -86,8 +86,10 @@ class _Profiler:
 
 
 def _jsonable(v):
-    if isinstance(v, (bool, int, str)) or v is None:
+    if v is None or type(v) in (bool, int, str):
         return v
+    if isinstance(v, str):
+        return str.__str__(v) if type(v).__module__.startswith("statemachine") else repr(v)
     if isinstance(v, float):
         return v
     if isinstance(v, (list, tuple)):
@@ -263,8 +265,11 @@ def _explore(mod, prop, params, spec, res):
                         with ResumedTracing():
                             space.detach_path()
                             draws = [[lab, deep_realize(v)] for lab, v in ctx.draws]
-                        res["samples"].append({"draws": _jsonable(draws), "notes": _jsonable(ctx.notes[:12])})
+                            notes = deep_realize(ctx.notes[:12])
+                        res["samples"].append({"draws": _jsonable(draws), "notes": _jsonable(notes)})
                 else:
+                    with ResumedTracing():
+                        mismatch.kind = str(deep_realize(mismatch.kind))
                     entry = match_known(known, mismatch.kind)
                     if entry is not None:
                         res["findings"][mismatch.kind] = res["findings"].get(mismatch.kind, 0) + 1
@@ -275,7 +280,10 @@ def _explore(mod, prop, params, spec, res):
                             space.detach_path()
                             draws = [[lab, deep_realize(v)] for lab, v in ctx.draws]
                             details = deep_realize(mismatch.details)
+                            mkind = str(deep_realize(mismatch.kind))
+                            mmsg = str(deep_realize(mismatch.msg))
                         draws = _jsonable(draws)
+                        mismatch.kind, mismatch.msg = mkind, mmsg
                         path = write_replay(
                             prop, spec["module"], params, draws, mismatch.kind, mismatch.msg, details
                         )
